@@ -2,6 +2,7 @@ package main
 
 import (
 	"bufio"
+	"regexp"
 	"encoding/json"
 	"fmt"
 	"os"
@@ -219,8 +220,8 @@ func runCheck(repo, prop, tier string, update bool) int {
 		baseSet := map[string]bool{}
 		for _, n := range base.Obligations[r.Key] {
 			baseSet[n] = true
+			baseSet[oblStem(n)] = true
 		}
-		_, inBase := base.Obligations[r.Key]
 		for _, m := range r.Mismatch {
 			undecided = append(undecided, fmt.Sprintf("%s: contract-mismatch: %s", r.Key, m))
 		}
@@ -228,7 +229,9 @@ func runCheck(repo, prop, tier string, update bool) int {
 			undecided = append(undecided, fmt.Sprintf("%s: unsupported: %s", r.Key, u))
 		}
 		seen := map[string]bool{}
+		seenStem := map[string]bool{}
 		for _, o := range r.Obls {
+			seenStem[oblStem(o.Name)] = true
 			s := sr[o.Name]
 			solverSecs += s.Seconds
 			if o.Canary {
@@ -264,7 +267,7 @@ func runCheck(repo, prop, tier string, update bool) int {
 				nObl-- // known findings are kept out of the proved/obligation count
 				continue
 			}
-			if baseSet[o.Name] || !inBase && len(base.Obligations) == 0 && false {
+			if baseSet[o.Name] || baseSet[oblStem(o.Name)] {
 				// an obligation that discharges on the pinned tree fails now
 				failedFuncs[r.Key] = true
 				file := filepath.Join(replayDir, fileSafe(o.Name)+".txt")
@@ -276,8 +279,8 @@ func runCheck(repo, prop, tier string, update bool) int {
 				undecided = append(undecided, fmt.Sprintf("%s: not in baseline and not discharged (%s)", o.Name, s.Status))
 			}
 		}
-		for n := range baseSet {
-			if !seen[n] {
+		for _, n := range base.Obligations[r.Key] {
+			if !seen[n] && !seenStem[oblStem(n)] {
 				undecided = append(undecided, fmt.Sprintf("%s: baseline obligation no longer generated (code shape changed)", n))
 			}
 		}
@@ -447,4 +450,18 @@ func tail(s string, n int) string {
 		return s
 	}
 	return "...\n" + s[len(s)-n:]
+}
+
+var reOblSuffix = regexp.MustCompile(`(\.e\d+|~\d+)$`)
+
+// oblStem strips the per-edge / duplicate suffixes, so that a change in the number of back
+// edges or call sites does not turn a known obligation into an unknown one.
+func oblStem(n string) string {
+	for {
+		m := reOblSuffix.FindString(n)
+		if m == "" {
+			return n
+		}
+		n = strings.TrimSuffix(n, m)
+	}
 }
